@@ -627,7 +627,7 @@ def shrink_case(case):
                     st2.append({**st, "bats": [x for x in st["bats"] if x[0] not in drop], "invs": [x for x in st["invs"] if x[0] not in drop]})
                 else:
                     st2.append(st)
-            yield {"groups": case["groups"][:gi] + case["groups"][gi + 1:], "steps": st2}
+            yield {**case, "groups": case["groups"][:gi] + case["groups"][gi + 1:], "steps": st2}
 
 
 class ManagerStream(Stream):
